@@ -70,7 +70,7 @@ func WalkTIFF(b []byte, base int) []Field {
 			sz := typeSize[typ] * int(cnt)
 			if sz > 4 && int(val) > 0 && base+int(val) < len(b) {
 				// first bytes of the out-of-line value are a boundary of interest
-				fs = append(fs, Field{Off: base + int(val), Width: 1, Kind: "value"})
+				fs = append(fs, Field{Off: base + int(val), Width: 1, Kind: "value", Bound: sz})
 			}
 			switch tag {
 			case 0x8769, 0x8825, 0xa005:
